@@ -28,11 +28,21 @@ def setup_types():
     pass
 
   class Q(nnx.Variable):
-    pass
+    # a creation hook that is not idempotent: it must run when the user creates the Variable and never again
+    # (merge / clone / update rebuild Variables from their state without calling it)
+    def on_create_value(self, value):
+      return value + QOFF
   return nnx, {'A': A, 'B': B}, {'P': nnx.Param, 'Q': Q}
 
 
-KEYS = {'A': ('a', 'b'), 'B': ('a', 'b'), 'D': ('x', 'y'), 'L': (0, 1), 'T': (0, 1), 'NT': ('w', 'b')}
+QOFF = 100      # added once by Q's on_create_value hook; subtracted wherever a Q value is read
+
+
+def val_of(x, t):
+  return int(np.asarray(x)) - (QOFF if getattr(t, '__name__', '') == 'Q' else 0)
+
+
+KEYS = {'A': ('a', 'b'), 'B': ('a', 'b'), 'D': ('x', 'y'), 'DI': (2, 10), 'L': (0, 1), 'T': (0, 1), 'NT': ('w', 'b')}
 
 import collections
 NT = collections.namedtuple('NT', ['w', 'b'])     # a generic registered pytree whose field order is not key order
@@ -64,7 +74,7 @@ def build_real(heap, nnx, mods, vts, reverse_dicts=False):
         elif v < 0:
           setattr(x, key, leaf(v))
       return x
-    if k == 'D':
+    if k in ('D', 'DI'):
       x = {}
       objs[i] = x
       for slot, key in (list(enumerate(KEYS[k]))[::-1] if reverse_dicts else enumerate(KEYS[k])):
@@ -122,7 +132,7 @@ def canon_model(heap):
       idx[v] = len(idx)
       i = idx[v]
       return (k, i, tuple((KEYS[k][s], rec(o['s'][s])) for s in range(2) if o['s'][s] != 0))
-    if k == 'D':
+    if k in ('D', 'DI'):
       return ('D', tuple((KEYS[k][s], rec(o['s'][s])) for s in range(2) if o['s'][s] != 0))
     if k == 'NT':
       return ('NT', (('b', rec(o['s'][1])), ('w', rec(o['s'][0]))))
@@ -143,7 +153,7 @@ def canon_real(root, nnx, mods, vts, ids=None):
       if ids is not None:
         ids.add(id(x))
       md = x.get_metadata() if hasattr(x, 'get_metadata') else {}
-      return (rev_v.get(type(x), type(x).__name__), idx[id(x)], int(np.asarray(x.value)), 1 if md.get('tag') == 'm1' else 0)
+      return (rev_v.get(type(x), type(x).__name__), idx[id(x)], val_of(x.value, type(x)), 1 if md.get('tag') == 'm1' else 0)
     if isinstance(x, nnx.Module):
       if id(x) in idx:
         return ('ref', idx[id(x)])
@@ -176,6 +186,9 @@ def conv_path(keys, heap):
     if o['k'] in ('L', 'T'):
       out.append(int(k))
       slot = int(k)
+    elif o['k'] == 'DI':
+      out.append(int(k))
+      slot = KEYS['DI'].index(int(k))
     else:
       out.append(k)
       slot = KEYS[o['k']].index(k)
@@ -188,7 +201,7 @@ def group_of_state(st, nnx, vts):
   out = set()
   for path, leaf in nnx.to_flat_state(st):
     if isinstance(leaf, nnx.VariableState):
-      out.add((tuple(path), rev_v.get(leaf.type, leaf.type.__name__), int(np.asarray(leaf.value))))
+      out.add((tuple(path), rev_v.get(leaf.type, leaf.type.__name__), val_of(leaf.value, leaf.type)))
     else:
       out.add((tuple(path), 'arr', int(np.asarray(leaf))))
   return out
@@ -275,7 +288,7 @@ def replay(chk, h, idx, nnx, mods, vts):
       if canon_real(root, nnx, mods, vts) != canon_model(heap):
         return key, f'after nnx.update: {canon_real(root, nnx, mods, vts)}, specification {canon_model(heap)}'
       for i, ob in ident.items():
-        if int(np.asarray(ob.value)) != heap[i - 1]['val']:
+        if val_of(ob.value, type(ob)) != heap[i - 1]['val']:
           return key, 'nnx.update did not change the caller\'s own Variable objects in place'
     elif op == 'updatemeta':
       key = key0 + ':updatemeta:' + ','.join(map(str, sorted(e['ids'])))
@@ -336,9 +349,11 @@ def main(chk):
   chk.add_tlc(sim, 'NnxGraph simulate (N=5, 9 edits, 3 ops)')
   ex = tlc.require_ok(tlc.run('NnxGraph', 'NnxGraph_small.cfg', workers=1, timeout=3000), 'NnxGraph exhaustive small')
   chk.add_tlc(ex, 'NnxGraph exhaustive export (N=2, 3 edits, 1 op)')
+  tied = tlc.require_ok(tlc.run('NnxGraph', 'NnxGraph_tied.cfg', workers=1, timeout=3000), 'NnxGraph tied weights')
+  chk.add_tlc(tied, 'NnxGraph exhaustive export from a tied-weights graph (2 ops)')
   seen = set()
   n = 0
-  for idx, h in enumerate(ex['exports'] + sim['exports']):
+  for idx, h in enumerate(ex['exports'] + tied['exports'] + sim['exports']):
     s = str(h)
     if s in seen:
       continue
@@ -347,6 +362,8 @@ def main(chk):
       r = replay(chk, h, idx, nnx, mods, vts)
     except RecursionError:
       r = ('C03:recursion', 'RecursionError in harness/real code')
+    except Exception as e:      # the API handed back something the adapter cannot even read (on the unchanged tree this never happens)
+      r = ('C03:malformed-result', f'the result of an NNX graph operation could not be interpreted: {type(e).__name__}: {str(e)[:160]}')
     n += 1
     nontrivial = sum(1 for e in h if e['op'] in ('new', 'link', 'leaf')) >= 2
     chk.count(hash(s), nontrivial=nontrivial)
